@@ -74,6 +74,8 @@ class Program:
         for f in self.facts.fns.values():
             if f.kind not in ("Fn", "AssocFn"):
                 continue
+            if f.f.get("trait_default_of"):
+                continue  # provided trait methods are analysed where they are instantiated
             if f.f.get("reachable"):
                 out.append(f)
                 continue
